@@ -290,3 +290,293 @@ def box_for(rng, cls):
         ctor = ('triclinic', dict(a=a, b=b, c=c, alpha=al, beta=be, gamma=ga))
     vects = G.vects_from_lammps(*G.lammps_from_abc(**p))
     return ctor, vects
+
+
+# ----------------------------------------------------------------------------
+# re-solve histories: ONE solution object, solved 2-4 times in succession
+#
+# A *state* is the full description of one problem as the user states it:
+#   stiff  : dict(c6, cls, scale [, lam, mu, nu, how])          (crystal frame)
+#   orient : dict(kind='identity'|'transform'|'axes-unnormalised'|'transform-list', T, okw)
+#            or dict(kind='miller', box_cls, ctor, vects, hkl, uvw, four)
+#   mn     : dict(cls, m_arg, n_arg, m, n)     cls 'default' = arguments omitted (m='x', n='y')
+#   b      : dict(cls, cart)  crystal Cartesian vector  |  dict(cls, uvw) lattice coordinates (Miller orientation)
+# A *history* = start orientation kind + 1..3 changes; each change alters one argument of solve()
+# (where the isotropic model's in-plane condition b.n = 0 cannot survive the change the Burgers
+# vector is regenerated in the same class; that is counted).
+NU_CLASSES = ['typical', 'zero', 'negative', 'high']
+HIST_TEMPLATES = [
+    ('transform', ('burgers',)),
+    ('transform', ('C', 'burgers', 'mn')),
+    ('axes-unnormalised', ('orient', 'C')),
+    ('identity', ('to-transform', 'mn', 'to-identity')),
+    ('miller', ('miller', 'burgers', 'mn-default')),
+    ('miller', ('box', 'C')),
+    ('transform-list', ('to-miller', 'burgers-negated', 'miller')),
+    ('miller', ('to-transform', 'mn', 'C')),
+    ('transform', ('mn', 'mn-default', 'orient')),
+    ('identity', ('C', 'to-miller', 'box')),
+    ('transform', ('burgers-negated', 'to-identity')),
+    ('miller', ('mn', 'to-identity', 'burgers')),
+]
+HIST_CHANGES = sorted({c for _s, ch in HIST_TEMPLATES for c in ch})
+HIST_READS = ['none', 'u', 'strain', 'stress', 'K', 'preln', 'single']
+BOX3 = [c for c in BOX_CLASSES if c != 'hexagonal4']
+_TKINDS = ['transform', 'axes-unnormalised', 'transform-list']
+
+
+def template_has_miller(k):
+    start, ch = HIST_TEMPLATES[k]
+    return start == 'miller' or any(c in ('to-miller', 'miller', 'box') for c in ch)
+
+
+def uvtw_float(uvw):
+    """Miller-Bravais components of the direction u a1 + v a2 + w c (any real u, v, w):
+    U = (2u-v)/3, V = (2v-u)/3, T = -(U+V), W = w."""
+    u, v, w = (float(q) for q in uvw)
+    return np.array([(2 * u - v) / 3, (2 * v - u) / 3, -(u + v) / 3, w])
+
+
+def rot_a_to_b(a, b):
+    """Proper rotation taking unit vector a to unit vector b (about a x b)."""
+    a, b = O.unit(a), O.unit(b)
+    ax = np.cross(a, b)
+    s, c = np.linalg.norm(ax), float(np.dot(a, b))
+    if s < 1e-12:
+        if c > 0:
+            return np.eye(3)
+        p = O.unit(np.cross(a, [1.0, 0, 0] if abs(a[0]) < 0.9 else [0, 1.0, 0]))
+        return _rot(p, 180.0)
+    return _rot(ax / s, np.degrees(np.arctan2(s, c)))
+
+
+def _orient_from_T(rng, kind, T):
+    if kind == 'identity':
+        return dict(kind=kind, T=np.eye(3), okw={})
+    if kind == 'transform':
+        return dict(kind=kind, T=T, okw=dict(transform=T.copy()))
+    if kind == 'transform-list':
+        return dict(kind=kind, T=T, okw=dict(transform=T.tolist()))
+    f = rng.uniform(0.3, 5.0, 3)
+    return dict(kind=kind, T=T, okw=dict(axes=T * f[:, None]))
+
+
+def _mn_state(rng, cls):
+    if cls == 'default':
+        return dict(cls=cls, m_arg=None, n_arg=None, m=X.copy(), n=Y.copy())
+    m_arg, n_arg, m, n = mn_axes(rng, cls)
+    return dict(cls=cls, m_arg=m_arg, n_arg=n_arg, m=m, n=n)
+
+
+def _mn_perp_to(rng, cls, b_d):
+    """Oblique m, n with n perpendicular to b_d (isotropic model: b stays in the slip plane)."""
+    while True:
+        n = np.cross(b_d, rng.normal(size=3))
+        if np.linalg.norm(n) > 0.2 * np.linalg.norm(b_d):
+            break
+    n = O.unit(n)
+    m = O.unit(np.cross(n, rng.normal(size=3)))
+    m = O.unit(m - (m @ n) * n)
+    if cls == 'oblique-b':
+        return dict(cls=cls, m_arg=m.tolist(), n_arg=n.tolist(), m=m, n=n)
+    return dict(cls=cls, m_arg=m.copy(), n_arg=n.copy(), m=m, n=n)
+
+
+def _stiff_state(rng, solver, k, scale):
+    if solver == 'iso':
+        cls = NU_CLASSES[k % 4]
+        lam, mu, nu = random_iso(rng, cls)
+        lam, mu = lam * scale, mu * scale
+        return dict(cls=cls, k=k, scale=scale, c6=iso_c6(lam, mu), lam=lam, mu=mu, nu=nu, how=k % 3)
+    cls = STIFF_CLASSES[k % len(STIFF_CLASSES)]
+    return dict(cls=cls, k=k, scale=scale, c6=stiffness(rng, cls, scale), how=k % 2)
+
+
+def _miller_orient(rng, box_cls, pair=None):
+    ctor, vects = box_for(rng, box_cls)
+    if pair is None:
+        fixed = FIXED_PAIRS[box_cls]
+        pair = fixed[int(rng.integers(0, len(fixed)))] if rng.random() < 0.3 else random_pair(rng)
+    hkl, uvw = pair
+    return dict(kind='miller', box_cls=box_cls, ctor=ctor, vects=vects, hkl=tuple(hkl), uvw=tuple(uvw), four=box_cls == 'hexagonal4')
+
+
+def _miller_burgers(rng, cls, hkl, uvw):
+    """Burgers vector in lattice coordinates: along the line, in the plane, or a general half-integer lattice vector."""
+    uvw = np.asarray(uvw, float)
+    w2 = np.asarray(inplane_vectors(hkl, uvw), float)
+    sgn = rng.choice([-1.0, 1.0])
+    if cls == 'screw':
+        return sgn * uvw * rng.choice([0.5, 1.0, 1 / 3])
+    if cls == 'edge':
+        return sgn * w2 * rng.choice([0.5, 1.0])
+    if cls in ('mixed', 'mixed60'):
+        return sgn * (w2 * rng.choice([0.5, 1.0]) + 0.5 * uvw)
+    b = rng.integers(-2, 3, 3).astype(float)
+    if not b.any():
+        b = np.array([1.0, 0, 1.0])
+    return b / 2
+
+
+def hist_expected(st):
+    """Oracle-side meaning of a state: rotation crystal -> dislocation frame, stiffness and
+    Burgers vector in that frame."""
+    m, n = st['mn']['m'], st['mn']['n']
+    o = st['orient']
+    if o['kind'] == 'miller':
+        T = O.frame_to_mn(O.miller_frame(o['vects'], o['uvw'], o['hkl']), m, n)
+        b_cart = np.asarray(st['b']['uvw'], float) @ o['vects']
+    else:
+        T = np.asarray(o['T'], float)
+        b_cart = np.asarray(st['b']['cart'], float)
+    return dict(T=T, m=m, n=n, c4=O.rotate4(O.c4_from_voigt(st['stiff']['c6']), T), b=T @ b_cart, b_cart=b_cart)
+
+
+def _set_b_cart(st, b_cart):
+    """Store a crystal-Cartesian Burgers vector the way the state's orientation states it."""
+    o = st['orient']
+    if o['kind'] == 'miller':
+        st['b'] = dict(cls=st['b']['cls'], uvw=np.linalg.solve(o['vects'].T, b_cart))
+    else:
+        st['b'] = dict(cls=st['b']['cls'], cart=np.asarray(b_cart, float).copy())
+
+
+def _new_burgers(rng, st, solver, cls, ls):
+    o = st['orient']
+    if o['kind'] == 'miller':
+        st['b'] = dict(cls=cls, uvw=_miller_burgers(rng, cls, o['hkl'], o['uvw']))
+    else:
+        b_d = burgers_frame(rng, cls, st['mn']['m'], st['mn']['n']) * ls
+        st['b'] = dict(cls=cls, cart=o['T'].T @ b_d)
+
+
+def _conditioned(st, solver, gap_min, im_min):
+    if solver != 'stroh':
+        return True
+    e = hist_expected(st)
+    gap, im = O.root_gap(e['c4'], e['m'], e['n'])
+    return gap >= gap_min and im >= im_min
+
+
+def _inplane(st):
+    e = hist_expected(st)
+    return abs(e['b'] @ e['n']) <= 1e-9 * np.linalg.norm(e['b'])
+
+
+def hist_start(rng, solver, start_kind, k, scale, ls, gap_min, im_min, count):
+    """Initial state of history number k."""
+    import copy
+    b_classes = BURGERS_ISO if solver == 'iso' else BURGERS_STROH
+    for attempt in range(80):
+        st = dict(solver=solver, ls=ls)
+        st['stiff'] = _stiff_state(rng, solver, k if attempt < 40 else 8, scale)       # 8 = triclinic
+        st['mn'] = _mn_state(rng, MN_CLASSES[k % len(MN_CLASSES)])
+        if start_kind == 'miller':
+            st['orient'] = _miller_orient(rng, BOX_CLASSES[k % len(BOX_CLASSES)])
+        else:
+            st['orient'] = _orient_from_T(rng, start_kind, G.random_rotation(rng))
+        st['b'] = dict(cls=b_classes[k % len(b_classes)])
+        _new_burgers(rng, st, solver, st['b']['cls'], ls)
+        if _conditioned(st, solver, gap_min, im_min):
+            return copy.deepcopy(st)
+        count('resolve:resampled-near-degenerate')
+    raise RuntimeError('no well-separated start problem')
+
+
+def hist_step(rng, st0, change, j, gap_min, im_min, count):
+    """State after one change.  j = deterministic variety index (case number + step)."""
+    import copy
+    solver, ls = st0['solver'], st0['ls']
+    b_classes = BURGERS_ISO if solver == 'iso' else BURGERS_STROH
+    for attempt in range(80):
+        st = copy.deepcopy(st0)
+        e0 = hist_expected(st0)
+        o = st['orient']
+        if attempt >= 40 and solver == 'stroh' and change not in ('burgers', 'burgers-negated'):
+            st['stiff'] = _stiff_state(rng, solver, 8, st0['stiff']['scale'])            # structurally degenerate combination
+        if change == 'C':
+            st['stiff'] = _stiff_state(rng, solver, st0['stiff']['k'] + 1 + j % 3 if attempt < 40 else 8, st0['stiff']['scale'])
+        elif change == 'burgers':
+            cls = b_classes[(b_classes.index(st0['b']['cls']) + 1 + j % (len(b_classes) - 1)) % len(b_classes)]
+            _new_burgers(rng, st, solver, cls, ls)
+        elif change == 'burgers-negated':
+            key = 'uvw' if 'uvw' in st['b'] else 'cart'
+            st['b'][key] = -np.asarray(st['b'][key], float)
+        elif change == 'mn':
+            cls = MN_CLASSES[(MN_CLASSES.index(st0['mn']['cls']) + 1 + j % 7) % len(MN_CLASSES)] if st0['mn']['cls'] in MN_CLASSES \
+                else MN_CLASSES[(1 + j) % len(MN_CLASSES)]
+            if solver == 'iso' and o['kind'] != 'miller' and cls in ('oblique', 'oblique-b'):
+                st['mn'] = _mn_perp_to(rng, cls, e0['b'])
+            else:
+                st['mn'] = _mn_state(rng, cls)
+        elif change == 'mn-default':
+            st['mn'] = _mn_state(rng, 'default')
+        elif change == 'orient':
+            assert o['kind'] in _TKINDS
+            kind = _TKINDS[(_TKINDS.index(o['kind']) + 1 + j % 2) % 3]
+            if solver == 'iso':       # keep b (crystal frame) fixed and in the slip plane: T' = R_n(phi) T S_b(psi)
+                T = _rot(e0['n'], rng.uniform(20, 340)) @ e0['T'] @ _rot(e0['b_cart'], rng.uniform(20, 340))
+            else:
+                T = G.random_rotation(rng)
+            st['orient'] = _orient_from_T(rng, kind, T)
+        elif change == 'to-transform':
+            kind = _TKINDS[j % 3]
+            T = G.random_rotation(rng)
+            if solver == 'iso':       # rotate so that the (unchanged) crystal-frame Burgers vector lies in the slip plane
+                v = T @ e0['b_cart']
+                tgt = v - (v @ e0['n']) * e0['n']
+                if np.linalg.norm(tgt) < 0.2 * np.linalg.norm(v):
+                    continue
+                T = rot_a_to_b(v, tgt) @ T
+            st['orient'] = _orient_from_T(rng, kind, T)
+            st['b'] = dict(cls=st0['b']['cls'], cart=e0['b_cart'].copy())
+        elif change == 'to-identity':
+            st['orient'] = _orient_from_T(rng, 'identity', np.eye(3))
+            st['b'] = dict(cls=st0['b']['cls'], cart=e0['b_cart'].copy())
+        elif change == 'to-miller':
+            st['orient'] = _miller_orient(rng, BOX_CLASSES[j % len(BOX_CLASSES)])
+            _set_b_cart(st, e0['b_cart'])
+        elif change == 'miller':
+            assert o['kind'] == 'miller'
+            new = _miller_orient(rng, o['box_cls'])
+            st['orient'] = dict(o, hkl=new['hkl'], uvw=new['uvw'])            # same cell, new line / plane
+        elif change == 'box':
+            assert o['kind'] == 'miller'
+            box_cls = 'hexagonal4' if o['four'] else BOX3[(BOX3.index(o['box_cls']) + 1 + j % 5) % len(BOX3)]
+            ctor, vects = box_for(rng, box_cls)
+            st['orient'] = dict(o, box_cls=box_cls, ctor=ctor, vects=vects)   # new cell, same indices, same lattice coordinates of b
+        else:
+            raise KeyError(change)
+        if solver == 'iso' and not _inplane(st):
+            _new_burgers(rng, st, solver, st['b']['cls'], ls)
+            if attempt == 0:
+                count('resolve:iso:burgers-regenerated-in-plane')
+        if _conditioned(st, solver, gap_min, im_min):
+            if attempt >= 40 and solver == 'stroh':
+                count('resolve:degenerate-stiffness-replaced')
+            return st
+        count('resolve:resampled-near-degenerate')
+    raise RuntimeError('no well-separated problem for change ' + change)
+
+
+def hist_args(st):
+    """What is handed to atomman for a state (numpy / plain python only): (stiffness description,
+    Burgers argument, keyword description).  Every call returns fresh copies."""
+    o = st['orient']
+    kw = {}
+    if o['kind'] == 'miller':
+        xi, hkl = np.array(o['uvw']), np.array(o['hkl'])
+        b = np.asarray(st['b']['uvw'], float).copy()
+        if o['four']:
+            xi, hkl, b = O.uvtw_from_uvw(o['uvw']), O.hkil_from_hkl(o['hkl']), uvtw_float(b)
+        kw.update(ξ_uvw=xi, slip_hkl=hkl, box=dict(ctor=o['ctor']))
+    else:
+        b = np.asarray(st['b']['cart'], float).copy()
+        for k_, v_ in o['okw'].items():
+            kw[k_] = [list(r) for r in v_] if isinstance(v_, list) else np.array(v_)
+    mn = st['mn']
+    if mn['cls'] != 'default':
+        for k_ in ('m', 'n'):
+            a = mn[k_ + '_arg']
+            kw[k_] = a if isinstance(a, str) else (list(a) if isinstance(a, list) else np.array(a))
+    return dict(st['stiff']), b, kw
